@@ -225,7 +225,14 @@ def run_app_facade(ctx):
                 elif st == "good":
                     app.close(status=1001, reason=b"bye", timeout=0)
                 else:
-                    app.send("hi")
+                    # the three sibling senders of the application object, in turn
+                    k_ = (it + len(obs)) % 3
+                    if k_ == 0:
+                        app.send("hi")
+                    elif k_ == 1:
+                        app.send_text("hi")
+                    else:
+                        app.send_bytes(b"hi")
                 r = "ok"
             except Exception as e:  # noqa
                 r = "X:" + common.canon_exc(e)
@@ -250,7 +257,8 @@ def run_app_facade(ctx):
                 want.append((st, "ok", cf((1001).to_bytes(2, "big") + b"bye") if live else ""))
                 live = False
             else:
-                want.append((st, "ok" if live else "X:CLOSED", "818200000000" + b"hi".hex() if live else ""))
+                k_ = (it + len(want)) % 3
+                want.append((st, "ok" if live else "X:CLOSED", ("82" if k_ == 2 else "81") + "8200000000" + b"hi".hex() if live else ""))
         norm = [(a, b, c) for a, b, c in obs]
         if norm != want:
             ctx.violate("status-range-enforced" if any(w[1] == "X:VALUEERROR" for w in want) else "at-most-one-own-close",
